@@ -20,6 +20,7 @@ func init() {
 }
 
 func runC16(a *A) {
+	a.Rule("shape/on-operand-sides", 2, func() { a.ruleOnOperandSides() })
 	a.Rule("keyenc/table", 2, func() {
 		a.keyencRule("stream", "", "encodeKey", keyencOpts{TypeTags: true})
 		a.numericKindsRule(a.Func("stream", "numericKeyFloat"))
@@ -250,4 +251,56 @@ func (a *A) ruleAliasDefaultBeforeUse() {
 	}
 	a.Check(okAll, construct, def.Pos(), fmt.Sprintf("the alias default is applied before all %d uses of the alias in the ON clause", n),
 		"the table alias is used at "+a.pos(badPos)+" before it has been defaulted to the table name: in `JOIN meta ON k = meta.k` the table-side column keeps its qualifier, the index key never matches and every row joins the NULL key")
+}
+
+// ruleOnOperandSides: `ON m.id = s.k` and `ON s.k = m.id` are the same predicate; which operand is the
+// stream column and which the table column is told by the alias it carries. The parser must therefore
+// not assign the sides by position: the text stored as JoinOnPair.StreamField (and TableField) has to
+// be able to come from either operand of the '='.
+func (a *A) ruleOnOperandSides() {
+	fn := a.Method("rsql", "Parser", "parseJoin")
+	read := a.Method("rsql", "Parser", "readJoinedFieldName")
+	pair := a.Named("types", "JoinOnPair")
+	n := 0
+	for _, fld := range []string{"StreamField", "TableField"} {
+		fv := a.FieldOf(pair, fld)
+		for _, st := range storesToField(fn, fv) {
+			n++
+			// operand calls the stored text can come from
+			calls := map[*ssa.Call]bool{}
+			seen := map[ssa.Value]bool{}
+			var walk func(v ssa.Value, d int)
+			walk = func(v ssa.Value, d int) {
+				if v == nil || seen[v] || d > 10 {
+					return
+				}
+				seen[v] = true
+				switch x := v.(type) {
+				case *ssa.Phi:
+					for _, e := range x.Edges {
+						walk(e, d+1)
+					}
+				case *ssa.Extract:
+					if c, ok := x.Tuple.(*ssa.Call); ok && c.Call.StaticCallee() == read {
+						calls[c] = true
+					}
+				case *ssa.Call:
+					if c := x.Call.StaticCallee(); c != nil && a.fnInModule(c) {
+						for _, arg := range x.Call.Args {
+							if isStringType(arg.Type()) {
+								walk(arg, d+1)
+							}
+						}
+					}
+				}
+			}
+			walk(st.Val, 0)
+			a.Check(len(calls) >= 2, fname(fn)+"#"+fld+"-by-alias", st.Pos(),
+				fld+" can come from either operand of '=' (the side is chosen by alias)",
+				fld+" always comes from the operand in one position of '=': `ON m.id = s.k` indexes the table by the stream column and looks the stream row up by the table column, so every row is enriched with an arbitrary table row")
+		}
+	}
+	if n == 0 {
+		a.Und(fname(fn)+"#on-operand-sides", fn.Pos(), "no store to JoinOnPair.StreamField/TableField found")
+	}
 }
